@@ -206,7 +206,7 @@ m('responder-stream-flag-complete-not-finished', ['C10'], 'rsocket/handlers/requ
 m('double-on-complete-stream', ['C07'], 'rsocket/handlers/request_stream_requester.py',
   "            elif frame.flags_complete:\n                self._subscriber.on_complete()\n\n            if frame.flags_complete:\n                self._finish_stream()",
   "            if frame.flags_complete:\n                self._subscriber.on_complete()\n                self._finish_stream()")
-m('channel-complete-twice-on-request-flag', ['C07'], 'rsocket/handlers/request_cahnnel_responder.py',
+m('channel-complete-at-request-when-n-is-max', ['C01'], 'rsocket/handlers/request_cahnnel_responder.py',
   "            if frame.flags_complete:\n                self._complete_remote_subscriber()", "            if frame.flags_complete or frame.initial_request_n == 0x7FFFFFFF:\n                self._complete_remote_subscriber()")
 m('cancel-sent-by-stream-responder-on-error', ['C08'], 'rsocket/handlers/request_stream_responder.py',
   "    def on_error(self, exception: Exception):\n        self.socket.send_error(self.stream_id, exception)", "    def on_error(self, exception: Exception):\n        self.socket.send_error(self.stream_id, exception)\n        self.socket.send_complete(self.stream_id)")
